@@ -35,6 +35,18 @@ def matrix(tier):
             tus.append(("target/source tree + executors D=%d periodic=%d" % (D, periodic), tsm.harness_spec(D, periodic), None))
     for cfg in ftree.CONFIGS:
         tus.append(("tree with rebuild/export D=%d coord=%s data=%s extra=%d rhs=%d periodic=%d" % cfg, ftree.spec_of(cfg), None))
+    # the StarPU executors against the API-compatible mock header, and the selector header with several runtimes enabled at once
+    for D in (1, 2, 3, 4):
+        for periodic in (0, 1):
+            tus.append(("StarPU executor (mock runtime) D=%d periodic=%d" % (D, periodic), core.harness_spec(D, periodic, omp=True, starpu=True), None))
+    for D in (2, 3):
+        tus.append(("StarPU target/source executor (mock runtime) D=%d" % D, tsm.harness_spec(D, 0, starpu=True), None))
+    import os
+    inc = "-I" + os.path.join(common.VERIF, "harness", "mock_starpu")
+    for label, defs in (("OpenMP + StarPU", ["-DTBF_USE_OPENMP", "-DTBF_USE_STARPU"]), ("OpenMP only", ["-DTBF_USE_OPENMP"]), ("StarPU only", ["-DTBF_USE_STARPU"]), ("no runtime", [])):
+        tus.append(("algorithm selector header, %s" % label,
+                    {"name": "h_selecter_" + "_".join(d[10:].lower() for d in defs) if defs else "h_selecter_none",
+                     "sources": ["h_selecter.cpp", "mock_starpu.cpp", "mock_gomp.cpp"], "flags": ["-fopenmp", inc] + defs}, "selecter"))
     return tus
 
 
@@ -58,7 +70,13 @@ def run(rep, tier, seed, replay, proof_ok, proof_msg):
                           (spec["sources"][0], " ".join(spec["flags"]), err, log[-6000:]), True,
                           "configuration '%s' does not instantiate: %s" % (label, err))
     # each TU that compiles runs the exactly-once / construction correspondence
-    binaries = {cfg: path for _, _, cfg, path in compiled if cfg is not None}
+    for label, spec, cfg, path in compiled:
+        if cfg == "selecter":
+            rc, so, se = common.run_harness(path, "")
+            if rc != 0 or "bad=0" not in so:
+                rep.violation("C19:selector:" + label, "# %s\n# stdout: %s\n# stderr: %s\n" % (label, so.strip()[:300], se.strip()[:2000].replace("\n", "\n# ")), True,
+                              "configuration '%s': the selected executors do not deliver the exactly-once result (exit %d, %s)" % (label, rc, so.strip()[:120]))
+    binaries = {cfg: path for _, _, cfg, path in compiled if cfg is not None and cfg != "selecter"}
     n_eval = 0
     if binaries:
         cases = C01.gen_cases("quick", seed, sorted(binaries), n=(30 if tier == "quick" else 400) * len(binaries), tag="C19")
